@@ -75,8 +75,27 @@ let xer_s rel h =
        | _ -> "FAIL")
   | _ -> "FAIL"
 
+(* up to the first NUL: what strlen() sees *)
+let rec cut_nul = function
+  | [] -> []
+  | c :: tl -> if string_of_cz c = "0" then [] else c :: cut_nul tl
+
+(* the XER body writers print the arcs in decimal with '.' between them (glue; the arcs
+   come from the model) *)
+let dump_s sep = function
+  | OArcs l ->
+      let t = String.concat sep (List.map string_of_cz l) in
+      let hex = String.concat "" (List.map (fun c -> Printf.sprintf "%02x" (Char.code c)) (List.of_seq (String.to_seq t))) in
+      Printf.sprintf "OK %d %s" (String.length t) (if t = "" then "-" else hex)
+  | _ -> "FAIL"
+
 let dispatch_slots cmd args =
   match cmd, args with
+  | "oid_parse_z", [s; h] -> Some (qres_s (parse_arcs_arr (cut_nul (bytes_of_hex h)) (blank_array (nslots s))))
+  | "oid_dump", [h] -> Some (dump_s "." (get_arcs (bytes_of_hex h)))
+  | "reloid_dump", [h] -> Some (dump_s "." (reloid_get_arcs (bytes_of_hex h)))
+  | "oid_set_re", _ :: arcs -> Some (setres_s (set_arcs (czs arcs)))
+  | "reloid_set_re", _ :: arcs -> Some (setres_s (reloid_set_arcs (czs arcs)))
   | "oid_get_n", [s; h] -> Some (ires_s (get_arcs_arr (bytes_of_hex h) (blank_array (nslots s))))
   | "reloid_get_n", [s; h] -> Some (ires_s (reloid_get_arcs_arr (bytes_of_hex h) (blank_array (nslots s))))
   | "oid_parse_n", [s; h] -> Some (qres_s (parse_arcs_arr (bytes_of_hex h) (blank_array (nslots s))))
